@@ -6,7 +6,7 @@ CONSTANTS Mode, Comps, Reps
 
 Str(s) == s   \* byte strings below are written as tuples of character codes
 Empty == [role |-> "", name |-> "", text |-> <<>>, comp |-> "", extname |-> "", fields |-> <<>>,
-          files |-> <<>>, content |-> <<>>, key |-> "", over |-> <<>>]
+          files |-> <<>>, content |-> <<>>, key |-> "", over |-> <<>>, more |-> <<>>]
 ExtOf(comp) == IF comp = "" THEN "tar" ELSE "tar." \o comp
 Bin(t) == [Empty EXCEPT !.role = "binary", !.name = "debian-binary", !.text = t]
 Ctl(comp, files, fields) == [Empty EXCEPT !.role = "control", !.name = "control." \o ExtOf(comp), !.comp = comp,
@@ -58,7 +58,8 @@ Layouts == {Vec(<<Bin(V20), Ctl("gz", cl, Fields(PkgA, ws)), Dat("", dl)>> \o ex
               cl \in CtlLayouts, dl \in DataLayouts, ws \in BOOLEAN,
               ex \in {<<>>, <<Extra("_gpgbuilder", <<120>>)>>, <<Extra("_foo", <<>>), Extra("_bar", <<1, 2, 3>>)>>}}
 V20More == V20 \o <<101, 120, 116, 114, 97, 32, 108, 105, 110, 101, 10>>        \* "2.0\nextra line\n"
-BinaryTexts == {V20, V20More, <<50, 46, 49, 10>>, <<51, 46, 48, 10>>, <<49, 46, 48, 10>>, <<50, 46, 48>>, <<>>, <<50, 46, 48, 10, 120, 10>>}
+BinaryTexts == {<<50, 48, 46, 48, 10>>, <<50, 49, 46, 52, 10>>, <<48, 50, 46, 48, 10>>, <<10>>, <<10, 50, 46, 48, 10>>, <<50, 10>>, <<50, 46, 10>>, <<50, 46>>,   \* 20.0 21.4 02.0 "\n" "\n2.0\n" "2\n" "2.\n" "2."
+               V20, V20More, <<50, 46, 49, 10>>, <<51, 46, 48, 10>>, <<49, 46, 48, 10>>, <<50, 46, 48>>, <<>>, <<50, 46, 48, 10, 120, 10>>}
 Versions == {Vec(<<Bin(t), StdCtl("gz"), StdDat("gz")>>) : t \in BinaryTexts}
 Missing == {Vec(<<StdCtl("gz"), StdDat("gz")>>), Vec(<<Bin(V20), StdDat("gz")>>), Vec(<<Bin(V20), StdCtl("gz")>>),
             Vec(<<Bin(V20)>>), Vec(<<>>), Vec(<<Bin(V20), Ctl("gz", <<Md5, Post>>, Fields(PkgA, FALSE)), StdDat("")>>)}
@@ -123,7 +124,15 @@ SigDecoys == {SVec(ms, "origin", <<"k1">>, NoTamper, <<1, 2, 3>>) : ms \in
 \* signatures over the wrong thing: wrong order, partial, foreign package
 SigWrong == {SVec(Base("gz") \o <<Sig("origin", "k1", ov)>>, "origin", <<"k1">>, NoTamper, ov) :
                 ov \in {<<1, 3, 2>>, <<2, 3>>, <<1, 2>>, <<3, 2, 1>>, <<1, 2, 3, 3>>}}
-C16Vecs == SigBasic \cup SigFlips \cup SigMore \cup SigDecoys \cup SigWrong
+\* signature members holding two packets: a signature (by a keyring key) that does not match, followed by one over
+\* the EMPTY input, over other members, or by the right one; and the right one first
+Pk(k, ov) == [key |-> k, over |-> ov]
+SigM(role, key, over, more) == [Empty EXCEPT !.role = "sig", !.name = "_gpg" \o role, !.key = key, !.over = over, !.more = more]
+SigMulti == {SVec(Base("gz") \o <<SigM("origin", p1.key, p1.over, <<p2>>)>>, "origin", ring, NoTamper, <<1, 2, 3>>) :
+                p1 \in {Pk("k1", <<3, 2, 1>>), Pk("k1", <<1, 2>>), Pk("k2", <<1, 2, 3>>), Pk("k1", <<1, 2, 3>>), Pk("k1", <<>>)},
+                p2 \in {Pk("k1", <<>>), Pk("k1", <<1, 2, 3>>), Pk("k1", <<2, 3>>), Pk("k2", <<>>)},
+                ring \in {<<"k1">>, <<"k1", "k2">>}}
+C16Vecs == SigBasic \cup SigFlips \cup SigMore \cup SigMulti \cup SigDecoys \cup SigWrong
 
 \* ---- several loaded packages alive in one process -----------------------------------------------------
 \* three signed packages with different names and payloads; handle h holds package PkgOfHandle[h].
